@@ -114,6 +114,30 @@ def admitOraclePriceTx (st : AuthState) (rs : List Request) : Bool := rs.all (ad
 def admitUpdateParams (st : AuthState) (r : Request) : Bool :=
   r.sig == .valid && r.arg0 == r.origin && (!st.mainnet || r.arg0 == st.authority)
 
+/-- the messages of x/operator's msg server -/
+inductive OpMsg where
+  | registerOperator | optIntoAVS | optOutOfAVS | setConsKey
+  deriving Repr, DecidableEq
+
+/-- the account addresses *inside* the payload of an operator message (RegisterOperatorReq.Info.EarningsAddr,
+Info.ApproveAddr; the other three messages carry no account address besides the from-field) -/
+structure OpPayload where
+  earnings : Addr
+  approve : Addr
+  deriving Repr, DecidableEq
+
+/-- The operator addresses under which an admitted operator message writes records.
+x/operator/keeper/msg_server.go: RegisterOperator → `SetOperatorInfo(ctx, req.FromAddress, req.Info)` →
+operator.go: setOperatorInfo: `opAccAddr, err := sdk.AccAddressFromBech32(addr)` (assigned ONCE, from the
+address parameter) … `store.Set(opAccAddr, bz)`; OptIntoAVS / OptOutOfAVS:
+`accAddr, _ := sdk.AccAddressFromBech32(req.FromAddress)`, SetConsKey: `… (req.Address)` — always the field
+`GetSigners` returns (`arg0`). The payload addresses are stored *in the value* only. -/
+def opMsgRecordKeys (_ : OpMsg) (r : Request) (_ : OpPayload) : List Addr := [r.arg0]
+
+/-- an operator message is admitted by the standard SDK signature path and then by its handler
+(`payloadOk`: not yet registered / opted in / active …) -/
+def admitOpMsg (r : Request) (payloadOk : Bool) : Bool := admitSdkMsg r && payloadOk
+
 /-- on whose behalf the admitted request changes state -/
 def actsFor (e : Entry) (r : Request) : Addr :=
   match e with
